@@ -319,11 +319,35 @@ impl Scheduler {
                 // jobs of the execution graph
                 for &from_coord in from.replicas.values().flatten() {
                     let to: Vec<_> = to.replicas.values().flatten().collect();
+                    // A producer replica of a forward connection towards a block with fewer
+                    // replicas may have no corresponding replica: it sends everything to a
+                    // single replica, chosen in the same way by all the hosts (on its own host
+                    // if possible).
+                    let is_same = |t: &Coord| {
+                        t.host_id == from_coord.host_id && t.replica_id == from_coord.replica_id
+                    };
+                    let mut fallback = None;
+                    if from.is_only_one_strategy && !fragile && !to.iter().any(|t| is_same(t)) {
+                        let mut local: Vec<_> = to
+                            .iter()
+                            .filter(|t| t.host_id == from_coord.host_id)
+                            .collect();
+                        local.sort();
+                        let mut all = to.clone();
+                        all.sort();
+                        fallback = if !local.is_empty() {
+                            Some(**local[from_coord.replica_id as usize % local.len()])
+                        } else if !all.is_empty() {
+                            Some(*all[from.global_ids[&from_coord] as usize % all.len()])
+                        } else {
+                            None
+                        };
+                    }
                     for &to_coord in &to {
                         if from.is_only_one_strategy || fragile {
                             if to.len() == 1
-                                || (to_coord.host_id == from_coord.host_id
-                                    && to_coord.replica_id == from_coord.replica_id)
+                                || is_same(to_coord)
+                                || fallback == Some(*to_coord)
                             {
                                 self.network.connect(from_coord, *to_coord, typ, fragile);
                             }
